@@ -87,6 +87,7 @@ def main():
     ap.add_argument('--tier', default='quick')
     ap.add_argument('--rerun')
     ap.add_argument('--src')
+    ap.add_argument('--name')
     args = ap.parse_args()
     if args.rerun:
         dest = os.path.abspath(args.rerun)
@@ -95,7 +96,7 @@ def main():
     else:
         prop, k = args.prop.upper(), args.k
         src = args.src or f'/tmp/wt/{prop}-out'
-        dest = f'/verif/seeded/{prop}-{k}'
+        dest = f'/verif/seeded/{args.name or (prop + "-" + k)}'
         os.makedirs(dest, exist_ok=True)
         shutil.copy2(f'{src}/change{k}.diff', f'{dest}/patch.diff')
         shutil.copy2(f'{src}/demo{k}.py', f'{dest}/demo.py')
